@@ -104,6 +104,39 @@ def run(tier):
         if a:
             raise ToolError("binding self-test failed: hanging caller accepted")
         v.add(binding_selftest="record with a caller left pending after the fault rejected")
+    # ---- pool level: the session keeps working through the remaining connections (mock cluster, real Session)
+    from common import run_harness
+    import re as _re
+    g = tlc("PoolDeath", "PoolDeath.cfg", workers=2, timeout=300)
+    if not g.ok() or not g.finished:
+        raise ToolError("PoolDeath failed: %s" % g.out[-400:])
+    scripts = sorted(g.json_prints("SCRIPT"), key=lambda x: json.dumps(x, sort_keys=True))
+    if len(scripts) < 20:
+        raise ToolError("too few pool scripts")
+    for i, sc in enumerate(scripts):
+        sc["id"] = i
+    pin, pout = os.path.join(wd, "pool.in.ndjson"), os.path.join(wd, "pool.out.ndjson")
+    write_ndjson(pin, scripts)
+    run_harness("vh-driver", ["c20", "run", pin, pout], timeout=1800)
+    prow = read_ndjson(pout)
+    if len(prow) != len(scripts):
+        raise ToolError("pool phase: %d of %d" % (len(prow), len(scripts)))
+    pj = []
+    for o in prow:
+        settled = [{"ok": q["ok"], "nframes": len(q["frames"]), "err": q.get("err", "")[:120]} for st in o.get("steps", []) if st["step"].get("settled") == 1 for q in st.get("reqs", [])]
+        pj.append({"id": o["id"], "start_err": o.get("start_err", ""), "settled": settled})
+    pjp = os.path.join(wd, "pool.j.ndjson")
+    write_ndjson(pjp, pj)
+    acc, rr, rej = validate_trace("Trace_PoolDeath", "Trace_PoolDeath.cfg", pjp, timeout=600)
+    if not acc:
+        raise ToolError("Trace_PoolDeath did not consume its input (line %s)" % rej)
+    for b in sorted({int(m.group(1)) - 1 for m in _re.finditer(r'<<"BAD", (\d+)>>', rr.out)})[:6]:
+        x, sc = pj[b], scripts[b]
+        failed = [q for q in x["settled"] if q["ok"] != 1]
+        v.violation("pool %s on %d node(s): after one of a node's connections was closed (%s) while the node accepted no new ones, %d of %d later requests failed, e.g. %s %s" % (
+            json.dumps(sc["pool"]), len(sc["nodes"]), "RST" if any(st.get("rst") == 1 for st in sc["steps"]) else "FIN", len(failed), len(x["settled"]),
+            failed[0]["err"] if failed else "", x["start_err"]), [prow[b]])
+    v.add(pool_scripts=len(pj), pool_requests=sum(len(x["settled"]) for x in pj))
     v.assumptions += ["faults are injected on an in-memory duplex pipe under tokio's paused clock (keep-alive timing is virtual)",
                       "the pool-level half (dead connection dropped, session continues on re-established connections) belongs to the mock-cluster checks",
                       "RST is represented by EOF/garbage on the pipe (a duplex pipe has no RST)"]
